@@ -35,7 +35,8 @@ def wellformed(s):
             if a:
                 return False
             if w:
-                if d != [w] or s["side"][w - 1] != i:
+                # its writer first; further plain dependencies (e.g. on stored calls) are allowed
+                if not d or d[0] != w or s["side"][w - 1] != i or any(s["side"][p - 1] for p in d[1:]):
                     return False
             elif d:
                 return False
@@ -138,7 +139,8 @@ def random_scenario(rng, n_min=3, n_max=8, norm=None):
                 deps.append(d); reg.append("none")
             elif role == "depsrc":
                 w = i - 1
-                kind.append("call"); args.append([]); deps.append([w]); reg.append("src")
+                extra = [p for p in cands if p != w and plan[p - 1] in ("stored", "plain") and rng.random() < 0.25]
+                kind.append("call"); args.append([]); deps.append([w] + extra); reg.append("src")
                 wof[idx] = w
                 side[w - 1] = i
             else:
@@ -154,7 +156,7 @@ def random_scenario(rng, n_min=3, n_max=8, norm=None):
         s = {"N": N, "kind": kind, "args": args, "deps": deps, "reg": reg, "wof": wof, "side": side,
              "nkw": nkw, "norm": rng.random() < 0.5 if norm is None else norm,
              "scopes": [rng.choice([[], [], ["a"], ["b"], ["a", 1], ["a", "x"]]) for _ in range(N)],
-             "falsy_stores": rng.random() < 0.2}
+             "falsy_stores": rng.random() < 0.2, "reg_seed": rng.choice([0, 0, rng.randrange(1, 1000)])}
         if ok and wellformed(s) and any(r == "stored" for r in reg):
             return s
 
@@ -509,6 +511,7 @@ class Universe:
         import contextlib
 
         scopes = s.get("scopes") or [[]] * self.N
+        deferred = []
         for i in range(1, self.N + 1):
           with self.plan.scope(*scopes[i - 1]) if scopes[i - 1] else contextlib.nullcontext():
               k, r = s["kind"][i - 1], s["reg"][i - 1]
@@ -532,10 +535,17 @@ class Universe:
                   if r == "stored":
                       st = TermStore(i)
                       self.store[i] = st
-                      self.registry.add(node, st)
+                      if s.get("reg_seed"):
+                          deferred.append((node, st))  # registered later, in another order than creation
+                      else:
+                          self.registry.add(node, st)
               for p in s["deps"][i - 1]:
                   self.plan.add_dependency(self.node[p], node)
               self.node[i] = node
+        if deferred:
+            random.Random(s["reg_seed"]).shuffle(deferred)
+            for node, st in deferred:
+                self.registry.add(node, st)
 
     # ---- history-level operations (not through uberjob) ----------------------------------
     def update_source(self, n):
